@@ -253,6 +253,11 @@ func (p *Prog) ComputeModSets() {
 				}
 				switch x := in.(type) {
 				case *ssa.Store:
+					// writes into objects this function allocated itself do not change any object that existed
+					// before the call: they are not part of the function's write set as seen by its callers
+					if p.rootedAtLocalAlloc(x.Addr, fn) {
+						continue
+					}
 					for _, k := range p.storeKeys(x.Addr) {
 						mi.direct.Add(k)
 					}
@@ -504,7 +509,10 @@ func (p *Prog) modCall(mi *modInfo, c *ssa.CallCommon) {
 		switch v.Name() {
 		case "append":
 			if st, ok := c.Args[0].Type().Underlying().(*types.Slice); ok {
-				mi.direct.Add(p.elemKey(st.Elem()))
+				// appending to a slice this function created itself writes no pre-existing array
+				if !p.freshSliceValue(c.Args[0], map[ssa.Value]bool{}) {
+					mi.direct.Add(p.elemKey(st.Elem()))
+				}
 			}
 		case "copy":
 			if st, ok := c.Args[0].Type().Underlying().(*types.Slice); ok {
@@ -717,6 +725,35 @@ func (p *Prog) ComputeInitOnly() {
 // (no s[i] = x, no copy into, no re-slicing, not handed to library code). In-bounds elements of a
 // slice of such a type held in an unescaped object cannot be changed by a callee
 // (assumption: no append to a stale header that shares its backing array with a longer one).
+// ComputeExternResults records the first result type of every external callee (for pure contracts).
+func (p *Prog) ComputeExternResults() {
+	p.externResult = map[string]types.Type{}
+	for _, fn := range p.FuncList {
+		for _, b := range fn.Blocks {
+			for _, in := range b.Instrs {
+				ci, ok := in.(ssa.CallInstruction)
+				if !ok {
+					continue
+				}
+				c := ci.Common()
+				sig := c.Signature()
+				if sig.Results().Len() == 0 {
+					continue
+				}
+				var name string
+				if c.IsInvoke() {
+					name = p.relTypeString(c.Value.Type()) + "." + c.Method.Name()
+				} else if sc := c.StaticCallee(); sc != nil && !p.isLocalFn(sc) {
+					name = externName(sc)
+				} else {
+					continue
+				}
+				p.externResult[name] = sig.Results().At(0).Type()
+			}
+		}
+	}
+}
+
 func (p *Prog) ComputeAppendOnly() {
 	bad := map[string]bool{}
 	seen := map[string]bool{}
@@ -769,4 +806,69 @@ func (p *Prog) ComputeAppendOnly() {
 			p.AppendOnly[k] = true
 		}
 	}
+}
+
+// rootedAtLocalAlloc: the address is (a field/element of) an object allocated by fn itself.
+func (p *Prog) rootedAtLocalAlloc(addr ssa.Value, fn *ssa.Function) bool {
+	for i := 0; i < 8; i++ {
+		switch a := addr.(type) {
+		case *ssa.FieldAddr:
+			addr = a.X
+		case *ssa.IndexAddr:
+			if _, isSlice := a.X.Type().Underlying().(*types.Slice); isSlice {
+				// a slice taken from a local array (varargs, composite literal)?
+				if sl, ok := a.X.(*ssa.Slice); ok {
+					addr = sl.X
+					continue
+				}
+				return false
+			}
+			addr = a.X
+		case *ssa.Alloc:
+			return a.Parent() == fn
+		default:
+			return false
+		}
+	}
+	return false
+}
+
+// freshSliceValue: the slice value can only denote nil or a backing array created by the enclosing function.
+func (p *Prog) freshSliceValue(v ssa.Value, seen map[ssa.Value]bool) bool {
+	if seen[v] {
+		return true
+	}
+	seen[v] = true
+	switch x := v.(type) {
+	case *ssa.Const:
+		return x.Value == nil
+	case *ssa.MakeSlice:
+		return true
+	case *ssa.Slice:
+		if al, ok := x.X.(*ssa.Alloc); ok {
+			_, isArr := derefType(al.Type()).Underlying().(*types.Array)
+			return isArr
+		}
+		return p.freshSliceValue(x.X, seen)
+	case *ssa.Phi:
+		for _, e := range x.Edges {
+			if !p.freshSliceValue(e, seen) {
+				return false
+			}
+		}
+		return true
+	case *ssa.Call:
+		if b, ok := x.Call.Value.(*ssa.Builtin); ok && b.Name() == "append" {
+			return p.freshSliceValue(x.Call.Args[0], seen)
+		}
+		return false
+	case *ssa.Convert:
+		// []rune(s), []byte(s)
+		_, fromStr := x.X.Type().Underlying().(*types.Basic)
+		return fromStr
+	case *ssa.UnOp:
+		// load of a promotable local holding only fresh slices: not tracked
+		return false
+	}
+	return false
 }
